@@ -100,5 +100,10 @@ func checkSpecs() map[string]CheckSpec {
 		{Func: "HC17_Orientation", Domain: X, RoundModel: true, DeltaModel: true, Covers: []string{"end"}},
 	}, Explanation: "Write monitor of the executor over frozen arguments and package-level variables on every path of the listed entry points; a function that writes only to memory it allocated itself is deterministic and race free under concurrent calls (non-interference).",
 		Outside: []string{"interleavings are not explored (replaced by the non-interference argument); sync-using internals of fmt/strconv are trusted", "entry points not listed here are covered by the same monitors inside the harnesses of their own property"}})
+	add(CheckSpec{Property: "C12", Harnesses: []HarnessSpec{
+		{Func: "HC12_Classify", Pkg: "xy/lineintersector", Domain: X, Covers: []string{"end", "proper"}},
+	}, Explanation: "RobustLineIntersector via LineIntersectsLine on integer-grid segment pairs: classification, endpoint copies and collinear overlaps against exact orientation-and-interval references.",
+		Assumptions: []string{"summary: bigxy.OrientationIndex = sign of the exact determinant (C10)", "cut: lineintersector.intersection (proper crossing point) returns an arbitrary point"},
+		Outside: []string{"accuracy of a computed proper-crossing point", "non-grid floats", "the non-robust strategy (harness HC12_NonRobust exists; not registered)"}})
 	return m
 }
